@@ -180,7 +180,7 @@ func (a *a25) evalIn(chain []a25frame, idx int, v ssa.Value, depth int) []lin {
 					if fv == a.skipFr {
 						return []lin{linSym("event.skipFrame")}
 					}
-					return []lin{linSym("field:" + fv.Name())}
+					return []lin{linSym("field:" + fname(fv))}
 				}
 			}
 			if ia, ok := x.X.(*ssa.IndexAddr); ok {
@@ -193,7 +193,7 @@ func (a *a25) evalIn(chain []a25frame, idx int, v ssa.Value, depth int) []lin {
 		}
 	case *ssa.Field:
 		if fv := fieldVar(x); fv != nil {
-			return []lin{linSym("field:" + fv.Name())}
+			return []lin{linSym("field:" + fname(fv))}
 		}
 	}
 	return []lin{linBad("unsupported " + descr(v))}
@@ -305,7 +305,7 @@ func ruleA25(r *Run, p *Prog) {
 	ev := p.NamedType("", "Event")
 	st := ev.Underlying().(*types.Struct)
 	for i := 0; i < st.NumFields(); i++ {
-		if st.Field(i).Name() == "skipFrame" {
+		if fname(st.Field(i)) == "skipFrame" {
 			a.skipFr = st.Field(i)
 		}
 	}
